@@ -2,6 +2,7 @@ package full
 
 import (
 	"fmt"
+	fixgen "github.com/b2broker/simplefix-go/tests/fix44"
 	"regexp"
 	"runtime"
 	"sort"
@@ -41,8 +42,9 @@ type C05Session struct {
 	SilentEnd bool `json:"silent_end,omitempty"`
 	// Forwarded: every other application message was received on another session and parsed (it carries that
 	// session's number, identifiers and time) before it is sent on through this one
-	Forwarded bool  `json:"forwarded,omitempty"`
-	GapAfter  int64 `json:"gap_after"` // virtual ns between the end of this connection and the next session (-1: the full settling time)
+	Forwarded      bool  `json:"forwarded,omitempty"`
+	RestoreCounter bool  `json:"restore_counter,omitempty"` // before this (second or later) session the application writes its persisted outgoing position back into the store
+	GapAfter       int64 `json:"gap_after"`                 // virtual ns between the end of this connection and the next session (-1: the full settling time)
 }
 
 type C05Case struct {
@@ -52,6 +54,7 @@ type C05Case struct {
 	StoreDelays   []int64      `json:"store_delays"`
 	HandlerDelays []int64      `json:"handler_delays"`
 	WriteDelay    int64        `json:"write_delay"`
+	StampHeader   bool         `json:"stamp_header,omitempty"` // the application\'s outgoing handler sets LastMsgSeqNumProcessed (369) in the header of every message
 	Sessions      []C05Session `json:"sessions"`
 }
 
@@ -74,6 +77,7 @@ func genC05(t *rapid.T) *C05Case {
 		c.HandlerDelays = append(c.HandlerDelays, rapid.SampledFrom(delayChoices).Draw(t, "handlerDelay"))
 	}
 	c.BadLogonFirst = role == "acceptor" && rapid.IntRange(0, 3).Draw(t, "badLogonFirst") == 0
+	c.StampHeader = rapid.IntRange(0, 3).Draw(t, "stampHeader") == 0
 	c.WriteDelay = 0 // a virtual sleep inside Write would stop the clock while senders queue on the session mutex
 	ns := rapid.SampledFrom([]int{1, 1, 1, 2, 3}).Draw(t, "nSessions")
 	for s := 0; s < ns; s++ {
@@ -99,6 +103,7 @@ func genC05(t *rapid.T) *C05Case {
 		// (for N = 1 and N = 2 a timer Heartbeat falls on the instant of the disconnect: in flight by definition)
 		ss.SilentEnd = c.N >= 3 && rapid.IntRange(0, 3).Draw(t, "silentEnd") == 0
 		ss.Forwarded = !ss.Shared && rapid.IntRange(0, 3).Draw(t, "forwarded") == 0
+		ss.RestoreCounter = s > 0 && rapid.IntRange(0, 2).Draw(t, "restoreCounter") == 0
 		c.Sessions = append(c.Sessions, ss)
 	}
 	return c
@@ -127,6 +132,7 @@ func checkC05(c *C05Case, rec *evid.Rec) (vs []pbt.Violation) {
 		starts    []time.Time // instant at which each Send call began
 	}
 	var obs []sessObs
+	restoreBroken := ""
 	overlap := false
 	leak, trouble := rig.Bubble(outerT, func() {
 		store := rig.NewStore(inner)
@@ -140,6 +146,12 @@ func checkC05(c *C05Case, rec *evid.Rec) (vs []pbt.Violation) {
 			hmu.Unlock()
 			for ; d > 0; d-- {
 				runtime.Gosched()
+			}
+			if c.StampHeader {
+				// the application stamps an optional header field (LastMsgSeqNumProcessed) on every message that leaves
+				if hb, ok := msg.HeaderBuilder().(*fixgen.Header); ok {
+					hb.SetLastMsgSeqNumProcessed(4242)
+				}
 			}
 			return true
 		}
@@ -159,6 +171,14 @@ func checkC05(c *C05Case, rec *evid.Rec) (vs []pbt.Violation) {
 			ss := &c.Sessions[si]
 			var o sessObs
 			o.startAt, _ = inner.GetCurrSeqNum(fix.StorageID{Side: fix.Outgoing})
+			if ss.RestoreCounter && si > 0 {
+				// the application writes the position it had persisted back into the store (the same number
+				// here): the outgoing numbering continues from exactly that number
+				_ = inner.SetSeqNum(fix.StorageID{Side: fix.Outgoing}, o.startAt)
+				if got, _ := inner.GetCurrSeqNum(fix.StorageID{Side: fix.Outgoing}); got != o.startAt {
+					restoreBroken = fmt.Sprintf("session %d: the application set the outgoing counter of the reused store to %d, the store now reports %d", si, o.startAt, got)
+				}
+			}
 			if ss.ResetIncoming && si > 0 {
 				_ = inner.ResetSeqNum(fix.StorageID{Side: fix.Incoming})
 			}
@@ -360,6 +380,9 @@ func checkC05(c *C05Case, rec *evid.Rec) (vs []pbt.Violation) {
 	if trouble != "" {
 		return []pbt.Violation{pbt.V("harness", "%s", trouble)}
 	}
+	if restoreBroken != "" {
+		return []pbt.Violation{pbt.V("counter-restore", "%s: a later session does not continue from the stored counter", restoreBroken)}
+	}
 	if leak != "" {
 		rec.Hist("bubble-ended-with-blocked-goroutines")
 	}
@@ -496,6 +519,15 @@ func checkC05(c *C05Case, rec *evid.Rec) (vs []pbt.Violation) {
 		}
 	}
 	rec.Hist(fmt.Sprintf("sessions=%d", len(c.Sessions)))
+	if c.StampHeader {
+		rec.Hist("application-stamps-an-optional-header-field")
+	}
+	for _, ss := range c.Sessions {
+		if ss.RestoreCounter {
+			rec.Hist("persisted-position-written-back-before-a-session")
+			break
+		}
+	}
 	if c.BadLogonFirst {
 		rec.Hist("reject-before-logon-on-the-wire")
 	}
